@@ -578,14 +578,8 @@ func isErrorType(t types.Type) bool {
 // pureResult: result leaves are uninterpreted functions of the argument leaves.
 func (fr *Frame) pureResult(fn *ssa.Function, args []*SVal, rt types.Type) *SVal {
 	x := fr.x
-	var sorts, terms []string
-	for _, a := range args {
-		for _, l := range fr.pureArgLeaves(a) {
-			sorts = append(sorts, l[0])
-			terms = append(terms, l[1])
-		}
-	}
 	key := funcKey(fn)
+	sorts, terms := fr.pureInputs(x.w.contracts[key], fn, args, fr.cur)
 	v := buildVal(rt, func(l Leaf) string {
 		name := "pure:" + key
 		if len(l.Path) > 0 {
@@ -596,6 +590,41 @@ func (fr *Frame) pureResult(fn *ssa.Function, args []*SVal, rt types.Type) *SVal
 	})
 	fr.assumeRanges(v)
 	return v
+}
+
+// pureInputs lists the inputs of the uninterpreted function standing for a pure callee: every
+// argument leaf, or, with a "depends" directive, the leaves of the listed expressions only.
+func (fr *Frame) pureInputs(c *Contract, fn *ssa.Function, vals []*SVal, h *HeapState) (sorts, terms []string) {
+	if c != nil && len(c.Depends) > 0 {
+		env := &SpecEnv{fr: fr, vars: map[string]*SVal{}, heap: h, old: h, pkg: fn.Pkg, contract: c}
+		for i, p := range fn.Params {
+			if i < len(vals) {
+				env.vars[p.Name()] = vals[i]
+			}
+		}
+		for _, d := range c.Depends {
+			v := env.force(env.eval(d))
+			for _, l := range fr.pureArgLeavesTop(v, h, false) {
+				sorts = append(sorts, l[0])
+				terms = append(terms, l[1])
+			}
+		}
+		return
+	}
+	for _, a := range vals {
+		for _, l := range fr.pureArgLeaves2(a, h) {
+			sorts = append(sorts, l[0])
+			terms = append(terms, l[1])
+		}
+	}
+	return
+}
+
+func (fr *Frame) pureArgLeavesTop(v *SVal, h *HeapState, top bool) [][2]string {
+	save := fr.cur
+	fr.cur = h
+	defer func() { fr.cur = save }()
+	return fr.pureArgLeavesD(v, top)
 }
 
 // pureArgLeaves flattens an argument for use as uninterpreted-function input. Slices
